@@ -867,6 +867,9 @@ impl Ctl {
         // functions of that scenario may still run later and must find their memory intact
         let n = alloc::ntracked();
         let clean = self.tasks.is_empty() && self.panics.is_empty() && (1..=n).all(|id| alloc::nfree(id) > 0) && self.all_idle();
+        if clean {
+            Self::drain_junk();
+        }
         alloc::release_all(clean);
         GEN.fetch_add(1, SeqCst);
         MAILBOX.lock().unwrap().clear();
@@ -893,6 +896,42 @@ impl Ctl {
         self.steps = 0;
         self.panics.clear();
         self.record("reset", 0, label, None);
+    }
+
+    /// Every bag popped from the global queue retires a queue node, which (with seal-on-defer) becomes a new
+    /// one-entry bag: the queue never gets shorter, and after some hundred scenarios a collection no longer
+    /// reaches the bags of the scenario at hand.  Between scenarios (nothing of the reference-counting layer is
+    /// pending) the controller empties the queue with sealing off, and restores the epoch residue.
+    fn drain_junk() {
+        if unsafe { verif::pending_bags() } < 8 {
+            return;
+        }
+        let residue = verif::global_epoch() % 16;
+        verif::set_seal_on_defer(false);
+        for _ in 0..64 {
+            for _ in 0..3 {
+                verif::force_advance();
+            }
+            for _ in 0..4096 {
+                let before = unsafe { verif::pending_bags() };
+                let g = circ::cs();
+                g.flush();
+                drop(g);
+                if unsafe { verif::pending_bags() } + 8 > before {
+                    break;
+                }
+            }
+            if unsafe { verif::pending_bags() } < 3 {
+                break;
+            }
+        }
+        if std::env::var("DBG_DRAIN").is_ok() { eprintln!("drain: left {:?} at {}", unsafe { verif::pending_bag_epochs() }, verif::global_epoch()); }
+        verif::set_seal_on_defer(true);
+        let mut n = 0;
+        while verif::global_epoch() % 16 != residue && n < 32 {
+            verif::force_advance();
+            n += 1;
+        }
     }
 
     fn hnd(word: usize) -> Hnd {
@@ -1075,7 +1114,8 @@ impl Ctl {
         let (tg, l, e, d, tag) = match op {
             Op::Upgrade { src, .. } | Op::WClone { src, .. } | Op::WSnap { src, .. } => (tgt(sh.wks[*src]), nul.clone(), z.clone(), z.clone(), 0),
             Op::WSUpgrade { ws, .. } | Op::WCounted { ws, .. } => (tgt(sh.wss[*ws]), nul.clone(), z.clone(), z.clone(), 0),
-            Op::Clone { src, .. } | Op::Snap { src, .. } | Op::Downgrade { src, .. } | Op::WeakMany { src, .. } => (tgt(sh.rcs[*src]), nul.clone(), z.clone(), z.clone(), 0),
+            Op::Clone { src, .. } | Op::Snap { src, .. } | Op::Downgrade { src, .. } => (tgt(sh.rcs[*src]), nul.clone(), z.clone(), z.clone(), 0),
+            Op::WeakMany { src, n, .. } => (tgt(sh.rcs[*src]), nul.clone(), z.clone(), z.clone(), *n),
             Op::Drop { slot } | Op::Finalize { slot } | Op::WithTag { slot, .. } => (tgt(sh.rcs[*slot]), nul.clone(), z.clone(), z.clone(), 0),
             Op::DropWeak { slot } => (tgt(sh.wks[*slot]), nul.clone(), z.clone(), z.clone(), 0),
             Op::Counted { sn, .. } | Op::SnapDown { sn, .. } => (tgt(sh.sns[*sn]), nul.clone(), z.clone(), z.clone(), 0),
@@ -1087,6 +1127,12 @@ impl Ctl {
             Op::WStore { loc: l, val } | Op::WSwap { loc: l, val, .. } => (tgt(None), wloc(l), z.clone(), rcarg(val, &sh.wks), 0),
             Op::WCas { loc: l, exp, val, .. } => (tgt(None), wloc(l), snarg(exp, &sh.wss), rcarg(val, &sh.wks), 0),
             Op::WCasTag { loc: l, exp, tag, .. } => (tgt(None), wloc(l), snarg(exp, &sh.wss), z.clone(), *tag & 7),
+            // bulk calls: the number of owners asked for travels in `ntag`, the iterator's object in `tgt`
+            Op::NewMany { n, .. } | Op::IterNew { n, .. } => (tgt(None), nul.clone(), z.clone(), z.clone(), *n),
+            Op::IterNext { it, .. } | Op::IterDrop { it } | Op::IterAbort { it } => {
+                let o = sh.its[*it].map(|(o, _)| o).unwrap_or(0);
+                (format!("\"tgt\":{},\"d0\":false", o), nul.clone(), z.clone(), z.clone(), 0)
+            }
             _ => (tgt(None), nul.clone(), z.clone(), z.clone(), 0),
         };
         format!("{},\"loc\":{},\"exp\":{},\"des\":{},\"ntag\":{}", tg, l, e, d, tag)
